@@ -109,6 +109,7 @@ func Loop(ctx context.Context, lst Accepter, newService func() Service, opts *Lo
 		go func() {
 			defer wg.Done()
 
+			verifPointS("loop.conn", "")
 			svc := newService()
 			assigner, err := svc.Assigner()
 			if err != nil {
@@ -123,6 +124,7 @@ func Loop(ctx context.Context, lst Accepter, newService func() Service, opts *Lo
 			go func() { <-sctx.Done(); srv.Stop() }()
 
 			stat := srv.WaitStatus()
+			verifPointS("loop.finish", "")
 			svc.Finish(assigner, stat)
 			if stat.Err != nil {
 				log("Server exit: %v", stat.Err)
